@@ -415,7 +415,8 @@ func (w *World) genSubtree(rq *request, r *core.Rand) {
 	var sigs []string
 	sigs = append(sigs, c.logSig)
 	rq.subSigners = map[string]bool{}
-	kinds := []string{"witness", "witness", "mirror", "mirror", "both", "both", "both", "foreign", "forged", "none", "ed25519-only"}
+	kinds := []string{"witness", "witness", "mirror", "mirror", "both", "both", "both", "foreign", "forged", "none", "ed25519-only",
+		"witness+foreign-mirror-name", "mirror+ed25519"}
 	signerKind = kinds[r.Intn(len(kinds))]
 	switch signerKind {
 	case "witness":
@@ -438,6 +439,30 @@ func (w *World) genSubtree(rq *request, r *core.Rand) {
 			rq.subSigners[mirrorName] = true
 		}
 	case "ed25519-only":
+		if c.w1 != "" {
+			sigs = append(sigs, c.w1)
+		}
+	case "witness+foreign-mirror-name":
+		// valid witness cosignatures, and under the mirror's NAME a line by
+		// another key: only the witness key may sign
+		if c.w2 != "" {
+			sigs = append(sigs, c.w1, c.w2)
+			rq.subSigners[witnessName] = true
+		}
+		k, _ := mldsa.NewPrivateKey(mldsa.MLDSA44(), hash32("not the mirror"))
+		if s, err := torchwood.NewCosignatureSigner(mirrorName, k); err == nil {
+			if msg, err := note.Sign(&note.Note{Text: c.text}, s); err == nil {
+				_, l := splitSigLines(msg)
+				sigs = append(sigs, l...)
+			}
+		}
+	case "mirror+ed25519":
+		// a valid mirror cosignature, and of the witness only its Ed25519 line:
+		// the witness's ML-DSA key is not on the checkpoint
+		if c.m != "" {
+			sigs = append(sigs, c.m)
+			rq.subSigners[mirrorName] = true
+		}
 		if c.w1 != "" {
 			sigs = append(sigs, c.w1)
 		}
@@ -550,7 +575,16 @@ func (w *World) genSubtree(rq *request, r *core.Rand) {
 			h = tlog.Hash(g.root(c.branch, n))
 		}
 	}
+	// the header (range, hash, proof) of an earlier request that was answered
+	// with signatures, presented again with THIS checkpoint
+	if len(w.signedHeaders) > 0 && r.Chance(1, 8) {
+		old := w.signedHeaders[r.Intn(len(w.signedHeaders))]
+		s, e, h, proof = old.s, old.e, old.h, old.proof
+		rq.subStart, rq.subEnd = s, e
+		rq.defect = "replayed-header"
+	}
 	rq.subHash = h
+	rq.subProof = proof
 	var b bytes.Buffer
 	fmt.Fprintf(&b, "subtree %d %d\n%s\n", s, e, base64.StdEncoding.EncodeToString(h[:]))
 	for _, ph := range proof {
